@@ -1259,7 +1259,10 @@ class GenFunctions(object):
             except IndexError:
                 # XXX fmt.function_suffix =
                 # XXX  fmt.function_suffix + '_nargs%d' % (i + 1)
-                pass
+                # Do not inherit an explicit function_suffix from node:
+                # the clone would get the same name as node.
+                # It is numbered with the other overloads instead.
+                fmt.delattrs(["function_suffix"])
             default_funcs.append(new._function_index)
             ordered_functions.append(new)
             ndefault += 1
